@@ -173,6 +173,12 @@ func FetchType(typ reflect.Type, typMap map[string]reflect.Type) {
 	}
 
 	if typ.Kind() == reflect.Array || typ.Kind() == reflect.Slice {
+		if typ.Elem().Kind() != reflect.Uint8 {
+			// a list type, under its Go name and under its list type name
+			name := TypeName(typ)
+			typMap[name] = typ
+			typMap[formatArrayTypeName(name)] = typ
+		}
 		FetchType(typ.Elem(), typMap)
 		return
 	}
